@@ -192,4 +192,128 @@ theorem treeAll_unit (ctx : Ctx) (d : Node) (kids sibs : Forest) (hok : ForestOK
     rw [hw1]
     exact ⟨entryOf a vs off 0 :: es1, by simp [hitem, hcd, hl1], rfl⟩
 
+/-! ### the tree's fast path: `EntriesTree::next` over a subtree that was not iterated -/
+
+/-- no declaration has the null tag (what `Abbreviation::parse` guarantees: `AbbreviationTagZero`) -/
+def TagsOK (ctx : Ctx) : Prop := ∀ c a, ctx.abbrevs.get c = some a → a.tag ≠ 0
+
+theorem readEntry_null_flag {ctx : Ctx} (htags : TagsOK ctx) {r r' : Raw} {e : Entry}
+    (h : r.readEntry ctx = .ok (e, r')) : e.isNull = true → e.hasChildren = false := by
+  unfold Raw.readEntry at h
+  obtain ⟨⟨ab, r1⟩, h1, h2⟩ := bind_ok_inv h
+  simp only at h2
+  split at h2
+  · simp only [Out.pure_eq, Out.ok.injEq, Prod.mk.injEq] at h2
+    intro _; rw [← h2.1]
+  · rename_i a
+    obtain ⟨⟨vs, rest⟩, _, h4⟩ := bind_ok_inv h2
+    simp only [Out.pure_eq, Out.ok.injEq, Prod.mk.injEq] at h4
+    intro hn
+    rw [← h4.1] at hn
+    -- a declaration's tag is not 0
+    have hget : ∃ c, ctx.abbrevs.get c = some a := by
+      unfold Raw.readAbbreviation at h1
+      obtain ⟨⟨code, rs⟩, _, h6⟩ := bind_ok_inv h1
+      simp only at h6
+      split at h6
+      · simp at h6
+      · split at h6
+        · simp at h6
+        · rename_i a' hg
+          simp only [Out.pure_eq, Out.ok.injEq, Prod.mk.injEq, Option.some.injEq] at h6
+          exact ⟨code, by rw [hg, h6.1]⟩
+    obtain ⟨c, hc⟩ := hget
+    exact absurd (by simpa [Entry.isNull] using hn) (htags c a hc)
+
+/-- the tree's loop is the cursor's loop: same seeks, same reads, same stop -/
+theorem nextLoop_eq_siblingLoop (ctx : Ctx) (htags : TagsOK ctx) (D : Int) : ∀ (fuel : Nat) (t : Tree),
+    (t.entry.isNull = true → t.entry.hasChildren = false) →
+    Tree.nextLoop ctx D fuel t =
+      (Cursor.siblingLoop ctx D fuel ⟨t.raw, t.entry⟩).map
+        (fun x => (x.1.isSome, Tree.mk t.root x.2.raw x.2.cur)) := by
+  intro fuel
+  induction fuel with
+  | zero => intro t _; rfl
+  | succ fuel ih =>
+    intro t hinv
+    -- what follows the seek step is the same on both sides, for any reader state `R`
+    have hstep : ∀ R : Raw,
+        (if R.input.isEmpty then
+            (.ok (false, { t with raw := R, entry := t.entry.setNull }) : Out (Bool × Tree))
+          else do
+            let (e, r) ← R.readEntry ctx
+            let t := { t with raw := r, entry := e }
+            if e.depth = D then pure (!e.isNull, t) else Tree.nextLoop ctx D fuel t) =
+        (readPart ctx D fuel ⟨R, t.entry⟩).map (fun x => (x.1.isSome, Tree.mk t.root x.2.raw x.2.cur)) := by
+      intro R
+      cases he : R.input.isEmpty with
+      | true =>
+        rw [readPart_empty (c := ⟨R, t.entry⟩) _ _ he]
+        simp [Out.map]
+      | false =>
+        rw [readPart_read (c := ⟨R, t.entry⟩) _ _ he]
+        simp only [Bool.false_eq_true, if_false]
+        cases hr : R.readEntry ctx with
+        | ok p =>
+          obtain ⟨e, r⟩ := p
+          simp only [Out.bind_ok]
+          by_cases hd : e.depth = D
+          · simp only [hd, if_true, Out.pure_eq, Out.map, Cursor.current]
+            cases e.isNull <;> simp
+          · simp only [hd, if_false]
+            exact ih (Tree.mk t.root r e) (readEntry_null_flag htags hr)
+        | err x => simp [Out.map]
+        | panic w => simp [Out.map]
+        | diverge => simp [Out.map]
+    rw [Tree.nextLoop, siblingLoop_succ]
+    cases hn : t.entry.isNull with
+    | true =>
+      have hc := hinv hn
+      rw [seekStep_null _ _ hn]
+      simp only [hc, Bool.false_eq_true, if_false]
+      exact hstep t.raw
+    | false =>
+      cases hc : t.entry.hasChildren with
+      | false =>
+        rw [seekStep_nochildren _ _ hc]
+        simp only [Bool.false_eq_true, if_false]
+        exact hstep t.raw
+      | true =>
+        cases hs : t.entry.sibling with
+        | none =>
+          rw [seekStep_nosibling _ _ hs]
+          simp only [if_true]
+          exact hstep t.raw
+        | some off =>
+          rw [seekStep_sibling _ _ off hn hc hs]
+          simp only [if_true]
+          exact hstep (t.raw.seekForward off t.entry.depth)
+
+/-- **`EntriesTree::next` over a subtree that was not iterated**: with the tree on an entry (whose
+children the caller did not list, or only partly), asking for the next entry at that entry's
+depth passes over the rest of the subtree — through the `DW_AT_sibling` fast path when there is a
+usable attribute — and ends on the next sibling (`true`) or on the list's end (`false`) -/
+theorem treeNext_skips_subtree (ctx : Ctx) (htags : TagsOK ctx) (d : Node) (kids sibs : Forest)
+    (hok : ForestOK ctx (.node d kids sibs)) (off : Nat) (hsib : SibOK ctx off (.node d kids sibs)) (D : Int)
+    (tail : Bytes) (htail : tail = [] ∨ ∃ t, tail = 0 :: t) (t : Tree)
+    (hc : PosAt ctx ⟨t.raw, t.entry⟩ off D tail (.node d kids sibs)) :
+    ∃ c', PosAt ctx c' (if d.children then off + (headBytes d).length + (encode kids).length + 1
+                        else off + (headBytes d).length) D tail sibs ∧
+      t.next ctx D = .ok (c'.current.isSome, Tree.mk t.root c'.raw c'.cur) := by
+  obtain ⟨c', hp, hns⟩ := nextSibling_posAt ctx d kids sibs hok off hsib D tail htail ⟨t.raw, t.entry⟩ hc
+  refine ⟨c', hp, ?_⟩
+  obtain ⟨a, vs, hget, htag, hch, hattrs, hceq⟩ := hc
+  have hent : t.entry = entryOf a vs off D := by
+    have := congrArg Cursor.cur hceq; simpa using this
+  have hdtag := hok.1.2.2.1
+  have hnn : t.entry.isNull = false := by rw [hent]; simp [Entry.isNull, htag, hdtag]
+  have hdep : t.entry.depth = D := by rw [hent]
+  unfold Tree.next
+  rw [if_neg (by rw [hdep]; omega)]
+  rw [nextLoop_eq_siblingLoop ctx htags D _ t (by rw [hnn]; intro h; cases h)]
+  unfold Cursor.nextSibling at hns
+  simp only [Cursor.current, hnn, Bool.false_eq_true, if_false, hdep] at hns
+  rw [hns]
+  rfl
+
 end Gimli.Die
